@@ -42,6 +42,7 @@ BigLen(e) == LET hdr == 5 + (IF e.srid # 0 THEN 4 ELSE 0) IN
      [] e.kind = "MultiPoint" -> hdr + 4 + 21 * e.parts[1]
      [] e.kind = "Polygon" -> hdr + 4 + SumParts(e.parts, 1, 4)
      [] e.kind = "MultiLineString" -> hdr + 4 + SumParts(e.parts, 1, 9)
+     [] e.kind = "Nested" -> hdr + 4 + (e.parts[1] - 1) * 9 + 21       \* a point inside parts[1] collections
 BigOk(e) == e.len = BigLen(e) /\ Len(e.same) >= 4 /\ \A i \in 1..Len(e.same) : e.same[i] = 1
 \* the hex entry points give the hex of Marshal's bytes for the same SRID (zero included), the Must variants agree,
 \* and a scanner reads the value and that SRID back from the text
